@@ -543,7 +543,7 @@ def spec_C11(tier):
 
 def spec_C12(tier):
     jobs, bounds = sap_jobs(tier, kinds=("gsap",))
-    j, b = kernel_jobs(tier, ["lcp", "bitset"])
+    j, b = kernel_jobs(tier, ["lcp", "bitset"], big_bitset=True)
     jobs += j
     bounds.update(b)
     # blocks re-parsed after NoTrailingLiterals: every Parse is called with the flag; 12 bytes over two letters (the first three pinned per job)
@@ -624,7 +624,7 @@ def spec_C13(tier):
 
 # ---------------------------------------------------------------- kernels and the run clause of C19
 
-def kernel_jobs(tier, names):
+def kernel_jobs(tier, names, big_bitset=False):
     n = 9 if tier == "quick" else 13
     jobs = []
     for nm in names:
@@ -634,8 +634,8 @@ def kernel_jobs(tier, names):
         elif nm == "bitset":
             for n1 in (1, 2):
                 for n2 in (1, 2):  # three inserts after the clear: the solver returns unknown (timeouts) on the assertion
-                    if tier == "quick" and n1 == 2 and n2 == 2:
-                        continue  # ~7 min as a single job; thorough only
+                    if tier == "quick" and n1 == 2 and n2 == 2 and not big_bitset:
+                        continue  # ~7 min as a single job: in the quick tier only C12 runs it (it is the job that finds the reverse of D5)
                     jobs.append(J("bitset-%d-%d" % (n1, n2), "zzH_bitset", params={"n1": n1, "n2": n2}, no_phi_conc=True))
         elif nm == "matchLen":
             for la in range(n + 1):
